@@ -202,6 +202,22 @@ def gen_program(draw, pp, cfg, profile=None):
                     continue
             except rsel.Invalid:
                 continue
+        if op['op'] == 'create_solution' and 'c' in op['solvent'] and profile.get('solution_over') and draw(st.booleans()):
+            # drain part of the solvent container just before it is drawn from: the request (made out for the state
+            # before the drain) may now exceed what is left, while the container as it was declared would still do
+            sc = op['solvent']['c']
+            others = [i for i in world.indices('c') if i != sc]
+            if others:
+                skey = g.key(sc)
+                frac = draw(st.floats(0.4, 0.8))
+                drain = {'op': 'transfer', 'src': {'i': sc}, 'dst': {'i': draw(st.sampled_from(others))},
+                         'q': f"{world.pool[sc].view['vol'] * cfg.vol_mult * frac * 1e6:.6g} uL"}
+                dstep = translate(g, drain)
+                dout = bench.execute(world, drain)
+                if dout.ok:
+                    rebind(g, drain, dout)
+                    steps.append(dstep)
+                    op['solvent']['c'] = g.cur[skey]
         step = translate(g, op)
         if step is None:
             continue
@@ -545,6 +561,10 @@ def removed_amounts(world, prog, eager, step_idx):
     return out
 
 
+def strip_text(v):
+    return {k: x for k, x in v.items() if k != 'instr'}
+
+
 def step_variant(s):
     k = s['op']
     if k == 'fill_to' and s['obj'].get('sel', {}).get('t') not in (None, 'plate', 'all'):
@@ -572,6 +592,19 @@ def first_divergence(world, pp, rr, eager, prog):
             pairs = [(rs.to, s['name'])]
         elif k == 'solution_from':
             pairs = [(rs.frm, s['src']), (rs.to, s['name'])]
+        if step_variant(s) == 'fill_to-slice' and len(rs.to) > 1 and rs.to[0] is not None and rs.to[-1] is not None:
+            # the open finding (bake fills the whole plate before the slice) is recognised by what it does, however
+            # little solvent it is: a well the step does not address differs between the recorded before and after
+            try:
+                vb, va = bench.view(rs.to[0], pp), bench.view(rs.to[-1], pp)
+                coords, _ = rsel.resolve(s['obj']['sel'], vb['rows'], vb['cols'])
+                addressed = set(coords)
+                if vb['k'] == 'p' and va['k'] == 'p' and any(
+                        (r, c) not in addressed and strip_text(va['wells'][r][c]) != strip_text(vb['wells'][r][c])
+                        for r in range(len(vb['wells'])) for c in range(len(vb['wells'][r]))):
+                    return 'fill_to-slice'
+            except rsel.Invalid:
+                pass
         for lst, key in pairs:
             if len(lst) > 1 and lst[-1] is not None and key in eager.snapshots[i + 1]:
                 if not same_object(world, bench.view(lst[-1], pp), eager.snapshots[i + 1][key]):
@@ -766,8 +799,8 @@ def check_c03(col, pp, cfg, prog):
 def run_c03(col, pp):
     prof = {'max_steps': 10, 'max_dim': 3, 'q_modes': ['frac'] * 6 + ['over', 'whole', 'zero', 'neg'],
             'fill_modes': ['fit'] * 6 + ['below', 'over', 'zero', 'neg'], 'keep_failing': True, 'solution_over': True,
-            'weights': {'solution': 5, 'transfer': 8}}
-    _run_programs(col, pp, check_c03, 100, 1500, prof, 'recipe')
+            'weights': {'solution': 8, 'transfer': 8}}
+    _run_programs(col, pp, check_c03, 250, 1500, prof, 'recipe')
 
 
 def replay_c03(col, pp, case):
